@@ -75,8 +75,11 @@ impl Ty {
     }
 
     /// This function checks the well-formedness of a type within a type template during
-    /// typechecking. For a user-declared type this means that a template with its name must exist
-    /// or it must be one of the type parameters of the template.
+    /// typechecking. For a user-declared type this means that it must be one of the type
+    /// parameters of the template, without type arguments, or that a template with its name must
+    /// exist and is applied to as many type arguments as it has type parameters, which are
+    /// themselves well-formed within the template. No instance is created, since the type
+    /// arguments may still contain type parameters.
     /// - `symbol_table` is the symbol table during typechecking.
     /// - `type_params` is the list of type parameters of the template.
     pub fn check_template(
@@ -87,19 +90,31 @@ impl Ty {
     ) -> Result<(), Error> {
         match self {
             Ty::I64 { .. } => Ok(()),
-            Ty::Decl { name, .. } => match symbol_table.type_templates.get(name) {
-                Some(_) => Ok(()),
-                None => {
-                    if type_params.bindings.contains(name) {
-                        Ok(())
-                    } else {
-                        Err(Error::Undefined {
+            Ty::Decl {
+                name, type_args, ..
+            } => {
+                let expected = match symbol_table.type_templates.get(name) {
+                    Some((_, template_params, _)) => template_params.bindings.len(),
+                    None if type_params.bindings.contains(name) => 0,
+                    None => {
+                        return Err(Error::Undefined {
                             span,
                             name: name.clone(),
-                        })
+                        });
                     }
+                };
+                if type_args.args.len() != expected {
+                    return Err(Error::WrongNumberOfTypeArguments {
+                        span: type_args.span.to_miette(),
+                        expected,
+                        got: type_args.args.len(),
+                    });
                 }
-            },
+                for arg in &type_args.args {
+                    arg.check_template(type_args.span, symbol_table, type_params)?;
+                }
+                Ok(())
+            }
         }
     }
 
